@@ -159,3 +159,112 @@ func init() {
 		Exhaust: true,
 	})
 }
+
+func reprEncs() []Enc {
+	return []Enc{{0, 0x00}, {0, 0x3c}, {0, 0x76}, {0, 0xfb}, {0, 0xf3}, {0, 0xcd}, {0, 0xc9}, {0, 0x34}, {0, 0xd3}, {0, 0xdb},
+		{1, 0x06}, {2, 0x45}, {2, 0x4d}, {2, 0xb0}, {3, 0x86}, {6, 0xc6}}
+}
+
+func init() {
+	register(&PropCheck{
+		ID:   "C06",
+		Dirs: []string{"z80"},
+		Jobs: func(tier string, seed int64) []Job {
+			var jobs []Job
+			mk := func(h, label string, ps ...int) {
+				jobs = append(jobs, Job{Dir: "z80", Harness: h, Params: ps, Label: h + "/" + label})
+			}
+			for n := 0; n <= 3; n++ {
+				mk("VC06NMI", fmt.Sprintf("n%d", n), n)
+				mk("VC06INT", fmt.Sprintf("im1/n%d", n), 1, n)
+				if n > 0 {
+					mk("VC06INT", fmt.Sprintf("im2/n%d", n), 2, n)
+				}
+			}
+			for p := 0; p < 8; p++ {
+				mk("VC06IM0RST", fmt.Sprintf("rst%02x", p*8), p)
+			}
+			for r := 0; r < 3; r++ {
+				mk("VC06IM0CALL", fmt.Sprintf("call/region%d", r), r)
+			}
+			refused := reprEncs()
+			if tier == "thorough" {
+				refused = allEncodings()
+			}
+			for _, e := range refused {
+				for _, n := range []int{0, 1} {
+					jobs = append(jobs, Job{Dir: "z80", Harness: "VC06Refused", Params: []int{e.Tbl, e.Op, n}, Label: fmt.Sprintf("VC06Refused/%s/n%d", e, n)})
+				}
+			}
+			jobs = append(jobs, stepJobs(allEncodings(), "VC06Handler")...)
+			// one-step refinement of the flip-flops for every instruction (EI, DI, RETN, RETI, all others)
+			jobs = append(jobs, stepJobs(allEncodings(), "VStep")...)
+			mk("VC06ScenarioEI", "s")
+			mk("VC06ScenarioNested", "s")
+			return jobs
+		},
+		Only: func(job Job, a string) bool {
+			if job.Harness == "VStep" {
+				return inSet(a, "IFF1", "IFF2", "IM", "intr")
+			}
+			return true
+		},
+		Bounds: map[string]interface{}{"steps": "1 (scenarios: 3)", "request": "Type in {NMI, maskable}, IM in {0,1,2} concrete per job, len(Data) 0..3 case-split with symbolic bytes; mode 0 with RST p (8) and CALL nn", "refused": "quick: 16 representative encodings, thorough: all 1786", "symbolic": "all of States, HALT, memory, vector byte, I"},
+		Assume: []string{"ideal RAM / passive ports", "mode 0 supplies RST p or CALL nn only", "requests with empty Data in modes 0/2 and IM outside 0..2 are outside the claim (C12 covers totality)", "which return address mode 0 pushes is C07's subject"},
+		Stubs:  stepStubs,
+		Rule:   "one job per (request kind, mode, len(Data)); refused requests compared with the reference model of the pinned instruction; handler counts and flip-flop effects for all 1786 encodings; two multi-Step scenarios",
+	})
+}
+
+func init() {
+	register(&PropCheck{
+		ID:   "C07",
+		Dirs: []string{"z80"},
+		Jobs: func(tier string, seed int64) []Job {
+			var jobs []Job
+			names := []string{"nmi", "im1", "im2"}
+			for k := 0; k < 3; k++ {
+				jobs = append(jobs, Job{Dir: "z80", Harness: "VC07", Params: []int{k, 0}, Label: "VC07/" + names[k]})
+			}
+			for p := 0; p < 8; p++ {
+				jobs = append(jobs, Job{Dir: "z80", Harness: "VC07", Params: []int{3, p}, Label: fmt.Sprintf("VC07/im0-rst%02x", p*8)})
+			}
+			jobs = append(jobs, Job{Dir: "z80", Harness: "VC07", Params: []int{4, 0}, Label: "VC07/im0-call"})
+			return jobs
+		},
+		Bounds: map[string]interface{}{"steps": 3, "handler": "the minimal transparent one: EI; RETI (NMI: RETN), assumed present at the handler address after the acceptance push", "kinds": "NMI, IM1, IM2 (vector byte and I symbolic), IM0 with RST p (8) and CALL nn", "symbolic": "the boundary state: all of States (any PC, so also on a block instruction or a HALT), HALT, memory"},
+		Assume: []string{"IFF1 = IFF2 at the boundary (= 1 for maskable kinds)", "handler bytes as stated", "comparison excludes the low seven bits of R and the two bytes below SP", "from lemma to whole programs: induction + C10 + C09, a paper step (DESIGN.md C07)"},
+		Stubs:  stepStubs,
+		Rule:   "one job per interrupt kind: 3-Step lemma accept; EI; RETI from an arbitrary state is the identity",
+	})
+}
+
+func init() {
+	register(&PropCheck{
+		ID:   "C09",
+		Dirs: []string{"z80"},
+		Jobs: func(tier string, seed int64) []Job {
+			jobs := stepJobs(encsOf("block"), "VStep")
+			maxN := 4
+			if tier == "thorough" {
+				maxN = 8
+			}
+			for _, op := range []int{0xb0, 0xb8, 0xb1, 0xb9, 0xb2, 0xba, 0xb3, 0xbb} {
+				for n := 1; n <= maxN; n++ {
+					jobs = append(jobs, Job{Dir: "z80", Harness: "VC09Run", Params: []int{op, n}, Label: fmt.Sprintf("VC09Run/ed%02x/n%d", op, n), MaxForks: 256})
+				}
+			}
+			return jobs
+		},
+		Only: func(job Job, a string) bool {
+			if job.Harness == "VStep" {
+				return !inSet(a, "rmw-order")
+			}
+			return true
+		},
+		Bounds: map[string]interface{}{"lemma": "one Step of each of the 16 block encodings from an arbitrary state (all BC/B, HL, DE, A, memory, port data)", "unrolled": "n = BC (or B) in 1..4 (thorough 1..8) elements run to completion against a functional spec", "longer_runs": "65536-element runs only via the lemma + induction on the counter (paper step)"},
+		Assume: []string{"ideal RAM / passive ports", "in the unrolled runs the two opcode bytes are still ED xx whenever they are re-fetched", "block I/O flags other than Z and N are not compared (undocumented)"},
+		Stubs:  stepStubs,
+		Rule:   "16 one-element lemma jobs + 8 repeating opcodes x n unrolled runs; obligations: state, element count, access sequence, memory",
+	})
+}
